@@ -1,7 +1,7 @@
 (* C10 — Rewards: fees go to the proposer, awards are minted exactly once. Statements only. *)
 From Coq Require Import List ZArith NArith Bool.
 From PM Require Import Base.Bytes Store.KV Store.MergeProofs Num.IntModel Num.DecModel Num.DecProofs
-  App.Model App.BankProofs App.TxProofs App.KeyProofs App.Examples.
+  App.Model App.BankProofs App.TxProofs App.KeyProofs App.RewardProofs App.Examples.
 Import ListNotations.
 Local Open Scope Z_scope.
 
@@ -15,7 +15,20 @@ Theorem C10_one_award_mints_exactly s a amt s1 s2 : bank_ok s ->
   bank_mint s (m_pool (ma s)) amt = Some s1 -> bank_send s1 (m_pool (ma s1)) a amt = Some s2 ->
   mint_award s a amt = s2 /\ supply s2 = supply s + amt.
 Proof. exact (one_award_mints_exactly s a amt s1 s2). Qed.
+(* the WHOLE fee-collector balance goes to the previous proposer (or stays in the pos account when that address is
+   not a validator), the collector is empty afterwards, nobody else's balance moves, the supply does not change *)
+Theorem C10_fees_go_to_the_proposer_in_full s p s' : bank_ok s ->
+  m_fee (ma s) <> m_pos (ma s) -> p <> m_fee (ma s) -> p <> m_pos (ma s) ->
+  reward_from_fees s p = Some s' ->
+  bal s' (m_fee (ma s)) = 0 /\ supply s' = supply s /\
+  (forall x, x <> m_fee (ma s) -> x <> m_pos (ma s) -> x <> p -> bal s' x = bal s x) /\
+  match get_val s p with
+  | Some _ => bal s' p = bal s p + bal s (m_fee (ma s)) /\ bal s' (m_pos (ma s)) = bal s (m_pos (ma s))
+  | None => bal s' p = bal s p /\ bal s' (m_pos (ma s)) = bal s (m_pos (ma s)) + bal s (m_fee (ma s))
+  end.
+Proof. exact (reward_from_fees_exact s p s'). Qed.
 Example C10_ex : exists s, ex_final = Some s /\ aget (accts s) A3 = Some 47.
 Proof. exact ex_award_paid. Qed.
 Print Assumptions C10_award_queue_emptied.
 Print Assumptions C10_one_award_mints_exactly.
+Print Assumptions C10_fees_go_to_the_proposer_in_full.
